@@ -627,6 +627,9 @@ def container_paths(doc, path=(), through_lists=True):
             if S.kind(v) != "scalar":
                 out.append((path + (k,), shape_class(v)))
                 out.extend(container_paths(v, path + (k,), through_lists))
+            elif path == () or through_lists:
+                # a rule may also name a scalar (only `left` differs from the override every scalar gets)
+                out.append((path + (k,), "scalar"))
     elif isinstance(doc, list) and not isinstance(doc, SetT) and through_lists:
         for i, v in enumerate(doc):
             if isinstance(v, dict):
@@ -635,7 +638,7 @@ def container_paths(doc, path=(), through_lists=True):
 
 
 RULE_MODES = {"hash": S.HASH_MODES, "empty-hash": S.HASH_MODES, "array": S.ARRAY_MODES,
-              "aoh": S.AOH_MODES, "mixed-seq": (), "empty-seq": (), "set": S.SET_MODES}
+              "aoh": S.AOH_MODES, "mixed-seq": (), "empty-seq": (), "set": S.SET_MODES, "scalar": ("left", "right")}
 
 
 def override_variants(lt, rt):
